@@ -14,7 +14,7 @@ from .fsrun import FS, FSInterp
 from .resultrun import Tagged, reducer_verdict
 
 INFO = {
-    "explanation": "Rounds 4/5: (R20.6) a summary built by the caller from the list get() hands out leaves the stored column as recorded; a group with complete unsorted columns is part of the abstract table. Panoptica_Statistic is built by interpreting its constructor on a table with missing values, then its query methods are interpreted: (R20.1/R20.2) get_summary(group, metric) summarises exactly the non-missing values of that cell list, in order: avg = mean, std = population standard deviation, min/max = the extremes, each accessor returning its own field; (R20.3) the across-groups summary is the same statistics over the per-group averages of all groups; (R20.4) get_one_subject returns every list's entry at that subject's index; (R20.6) queries do not change the stored table (summaries are repeatable, order of queries irrelevant); (R20.5) non-finite and missing cells become missing at load time (delegated R18.4 round trip on the abstract file). Further delegated: R15.6 (the aggregator keeps no parsed copy of the file between calls). Round 8: (R20.7) at every construction site of the statistic object the subject list and the value lists follow the same row order: a value table that went through a re-ordering table operation (pivot, pivot_table, groupby, sort_values, sort_index, unstack, crosstab, value_counts - trusted model of pandas) must be put back into the subject list's order (reindex / .loc) or the subject list must come from that same table; built-in positive and negative examples.",
+    "explanation": "Rounds 4/5: (R20.6) a summary built by the caller from the list get() hands out leaves the stored column as recorded; a group with complete unsorted columns is part of the abstract table. Panoptica_Statistic is built by interpreting its constructor on a table with missing values, then its query methods are interpreted: (R20.1/R20.2) get_summary(group, metric) summarises exactly the non-missing values of that cell list, in order: avg = mean, std = population standard deviation, min/max = the extremes, each accessor returning its own field; (R20.3) the across-groups summary is the same statistics over the per-group averages of all groups; (R20.4) get_one_subject returns every list's entry at that subject's index; (R20.6) queries do not change the stored table (summaries are repeatable, order of queries irrelevant); (R20.5) non-finite and missing cells become missing at load time (delegated R18.4 round trip on the abstract file). Further delegated: R15.6 (the aggregator keeps no parsed copy of the file between calls). Round 8: (R20.7) at every construction site of the statistic object the subject list and the value lists follow the same row order: a value table that went through a re-ordering table operation (pivot, pivot_table, groupby, sort_values, sort_index, unstack, crosstab, value_counts - trusted model of pandas) must be put back into the subject list's order (reindex / .loc) or the subject list must come from that same table; built-in positive and negative examples. Round 9: R18.4 foreign spellings delegated.",
     "trusted_base": ["numpy reducers average/std/min/max", "Python semantics of the modelled AST subset"],
     "assumptions": ["at least one finite value per summarised cell list (the property's precondition)"],
     "not_decided": ["floating-point rounding of the reducers"],
